@@ -15,6 +15,7 @@ import Driver.HclType
 import Driver.Plan
 import Driver.Copy
 import Driver.Reverse
+import Driver.Clean
 open Lean
 
 def dispatch (j : Json) : Json :=
@@ -41,6 +42,7 @@ def dispatch (j : Json) : Json :=
   | "plan.shape" => Driver.handlePlanShape j
   | "copy.plan" => Driver.handleCopyPlan j
   | "rev.plan" => Driver.handleRevPlan j
+  | "clean.check" => Driver.handleCleanCheck j
   | "h1" => Json.mkObj [("h", Atlas.Base.h1 (Driver.unhex (Driver.str j "hex")))]
   | op => Json.mkObj [("err", s!"unknown-op:{op}")]
 
